@@ -4,6 +4,7 @@ mod edns;
 mod hdr;
 mod hostile;
 mod inspect;
+mod mdns;
 mod msg;
 mod name;
 mod nametext;
@@ -33,6 +34,8 @@ fn main() {
         "reparse" => reparse::run(&a),
         "txt" => txt::run(&a),
         "store" => store::run(&a),
+        "discover" => mdns::run_discover(&a),
+        "datagram" => mdns::run_datagram(&a),
         "values" => values::run(&a),
         "compress" => compress::run(&a),
         "sinks" => compress::run_sinks(&a),
